@@ -13,7 +13,9 @@ cleanup() { git -C /repo worktree remove --force "$W" 2>/dev/null; rm -rf "$W"; 
 trap cleanup EXIT
 (cd "$W" && git apply "$D/patch.diff") || { echo "apply FAILED"; exit 2; }
 for c in "$@"; do
-  out=$(cd "$V" && VERIF_REPO="$W" ./check "$c" --tier "$TIER" 2>&1)
+  # one check at a time per framework directory: the harness binary and the regenerated Gen/*.lean files are per directory
+  mkdir -p "$V/build"
+  out=$(cd "$V" && VERIF_REPO="$W" flock "$V/build/seedrun.lock" ./check "$c" --tier "$TIER" 2>&1)
   rc=$?
   echo "== $c rc=$rc"
   echo "$out" | grep -E 'VIOLATION|BROKEN|KNOWN' | cut -c1-400
